@@ -2492,6 +2492,7 @@ int32 matrixValidateCertsExt(psPool_t *pool, psX509Cert_t *subjectCerts,
     x509v3extensions_t *ext;
     char ip[16];
     int32 rc, foundSupportedSAN, pathLen = 0;
+    uint32 savedFailFlags;
 
     /*
        Check for illegal option combinations.
@@ -2620,9 +2621,46 @@ int32 matrixValidateCertsExt(psPool_t *pool, psX509Cert_t *subjectCerts,
             continue;
         }
         sc->authStatus = PS_FALSE;
+        savedFailFlags = sc->authFailFlags;
         if ((rc = psX509AuthenticateCert(pool, sc, ic, foundIssuer, hwCtx,
                  poolUserPtr)) == PS_SUCCESS)
         {
+            if (sc->authStatus != PS_CERT_AUTH_PASS)
+            {
+                /* This anchor has the issuer's name and key but may not
+                   sign (no keyCertSign, key id mismatch, ...). The verdict
+                   must not depend on the order of the CA list: if a later
+                   anchor authenticates the certificate, that one counts. */
+                psX509Cert_t *later, *laterIssuer = NULL;
+                int32 failStatus = sc->authStatus;
+                uint32 failFlags = sc->authFailFlags;
+
+                for (later = ic->next; later != NULL; later = later->next)
+                {
+                    if (later->parseStatus != PS_X509_PARSE_SUCCESS)
+                    {
+                        continue;
+                    }
+                    sc->authStatus = PS_FALSE;
+                    sc->authFailFlags = savedFailFlags;
+                    if (psX509AuthenticateCert(pool, sc, later, &laterIssuer,
+                            hwCtx, poolUserPtr) == PS_SUCCESS &&
+                        sc->authStatus == PS_CERT_AUTH_PASS)
+                    {
+                        break;
+                    }
+                }
+                if (later != NULL)
+                {
+                    ic = later;
+                    *foundIssuer = laterIssuer;
+                }
+                else
+                {
+                    sc->authStatus = failStatus;
+                    sc->authFailFlags = failFlags;
+                }
+            }
             rc = checkPathLenConstraint(ic, sc, pathLen);
             if (rc < 0)
             {
